@@ -142,6 +142,10 @@ impl Gen {
                         let a = self.rng.range(-32767, 32767) as i32;
                         let b = self.rng.range(a as i64, 32767) as i32;
                         c.range = Some((a, b.max(a.saturating_add(40).min(32767))));
+                        if self.rng.chance(1, 4) {
+                            // a declared range wider than the cell: it narrows nothing, the cell limits still apply
+                            c.range = Some((*self.rng.pick(&[-100_000, -32768, 0]), *self.rng.pick(&[100_000, 65535, 32768])));
+                        }
                     }
                 }
                 CT::Int32 => {
@@ -365,6 +369,13 @@ impl Gen {
             let ci = g.rng.usize(t.cols.len());
             let lit = lit_for(g, ci);
             let col = MExpr::Col(t.cols[ci].name.clone());
+            // one atom in five is not a comparison: truthy values other than 1 (bare column, bit test, sum)
+            match g.rng.below(15) {
+                0 => return col,
+                1 => return MExpr::Bin(Bin::BitAnd, Box::new(col), Box::new(MExpr::Lit(V::Int(*g.rng.pick(&[1, 2, 4, 6, 0x7fff]))))),
+                2 => return MExpr::Bin(Bin::Add, Box::new(col), Box::new(MExpr::Lit(lit))),
+                _ => {}
+            }
             let op = *g.rng.pick(&[Bin::Eq, Bin::Eq, Bin::Eq, Bin::Ne, Bin::Lt, Bin::Le, Bin::Gt, Bin::Ge]);
             MExpr::Bin(op, Box::new(col), Box::new(MExpr::Lit(lit)))
         };
@@ -531,7 +542,24 @@ impl Gen {
         let table = self.rng.pick(&user_tables).clone();
         let r = self.rng.below(100);
         if invalid {
-            return match self.rng.below(6) {
+            return match self.rng.below(8) {
+                6 | 7 => {
+                    // a value inside the declared range but outside what the cell can store (or the reserved
+                    // most negative number): must be refused, never stored wrapped
+                    let t = &model.tables[&table];
+                    let ints: Vec<usize> = (0..t.cols.len()).filter(|i| !t.cols[*i].ty.is_str()).collect();
+                    match (self.fresh_row(model, &table, &[]), ints.is_empty()) {
+                        (Some(mut r), false) => {
+                            let ci = *self.rng.pick(&ints);
+                            r[ci] = V::Int(match t.cols[ci].ty {
+                                CT::Int16 => *self.rng.pick(&[32768, -32768, 40000, 65636, -40000]),
+                                _ => i32::MIN,
+                            });
+                            Op::Insert { table, rows: vec![r] }
+                        }
+                        _ => Op::DropTable { name: "NoSuchTable".into() },
+                    }
+                }
                 0 => Op::Insert { table: "NoSuchTable".into(), rows: vec![vec![V::Int(1)]] },
                 1 => {
                     // duplicate of an existing key
@@ -609,7 +637,8 @@ impl Gen {
                 let mut sets = Vec::new();
                 for _ in 0..k {
                     let ci = *self.rng.pick(pool);
-                    if sets.iter().any(|(n, _): &(String, V)| *n == t.cols[ci].name) {
+                    // the same column assigned twice in one UPDATE is legal (the last assignment wins): 1 in 10
+                    if sets.iter().any(|(n, _): &(String, V)| *n == t.cols[ci].name) && !self.rng.chance(1, 10) {
                         continue;
                     }
                     sets.push((t.cols[ci].name.clone(), self.value_for(&t.cols[ci], model.db_codepage)));
